@@ -8,6 +8,7 @@ License, v. 2.0. If a copy of the MPL was not distributed with this file,
 You can obtain one at http://mozilla.org/MPL/2.0/.
 */
 #include <iostream>
+#include <list>
 #include <map>
 
 #include "libfive/tree/archive.hpp"
@@ -53,6 +54,11 @@ public:
     static const uint8_t END_OF_ITEM;
 
 protected:
+    /*  Trees that contain remap / apply nodes are flattened before they
+     *  are walked; the flattened copies must outlive the ids map, which
+     *  refers to their nodes.  */
+    std::list<Tree> flattened;
+
     /*
      *  Serialize a Tree and all of its dependencies.
      *  Modifies the ids map to store where each subtree has been serialized.
